@@ -222,6 +222,32 @@ def split_case(case):
     return r
 
 
+def interleave_case(case):
+    """two live systems whose calls interleave must not influence each other (shared class-level or module-level scratch state)"""
+    de, I = lc._imports()
+    r = Res()
+    name = case["method"]
+    cfg = dict(method=name, dtype="float64", dense=case["dense"])
+    solo, *_ = build(cfg, (("intT", 1.0), ("int",)))
+    x, y0, consts, dtype = fresh(cfg)
+    x.integrate(dtype(1.0))
+    # a second system of the same method with another state, tolerance and direction runs to completion in between
+    other = de.OdeSystem(f_osc, y0=np.array([2.0, -3.0], dtype=dtype), t=(dtype(5.0), dtype(3.0)), dt=dtype(0.125), rtol=dtype(1e-4), atol=dtype(1e-4),
+                         dense_output=True, constants=dict(k=2.5))
+    other.method = lc.by_name(case["other"])
+    other.integrate()
+    x.integrate()
+    r.n = 1
+    same = np.array_equal(x.t, solo.t) and np.array_equal(x.y, solo.y)
+    if same and case["dense"]:
+        same = all(np.array_equal(p.m0, q.m0) and np.array_equal(p.m1, q.m1) for p, q in zip(x.sol.y_interpolants, solo.sol.y_interpolants))
+    if not same:
+        r.v("C13/instances-interfere/%s" % name, "a system's results do not depend on what other systems did in between", case,
+            observed=dict(rows=[len(x), len(solo)], max_dy=float(np.max(np.abs(x.y[-1] - solo.y[-1])))), expected="bit-identical to the uninterrupted run")
+    r.out(("interleave", name, case["other"], case["dense"]))
+    return r
+
+
 def run(ctx):
     depth = 3 if ctx.quick else 4
     ctx.rule = ("E1 breadth-first search to depth %d over {integrate(), integrate(1.0), integrate(0.5), dt=, rtol=, atol=, method= (2 choices), tf=, set_kick_vars, "
@@ -243,11 +269,15 @@ def run(ctx):
             for cuts, ongrid in (([1.0], True), ([0.5, 1.0, 1.5], True), ([0.6], False), ([0.3, 1.1], False)):
                 cases.append(dict(method=m, dtype="float64", cuts=cuts, ongrid=ongrid))
         grid.pmap(split_case, cases, ctx, section="split", horizon=600)
+        icases = [dict(method=m, other=o, dense=d) for m in BASES + ["SymplecticEulerSolver", "GaussLegendre4", "ImplicitMidpoint"] for o in (m, "RK4Solver", "RadauIIA5", "ABAs5o6HSolver") for d in (False, True)]
+        grid.pmap(interleave_case, icases, ctx, section="interleave", horizon=600)
 
 
 def replay(case):
     if "cuts" in case:
         return split_case(case)
+    if "other" in case:
+        return interleave_case(case)
     cfg = {k: v for k, v in case.items() if k not in ("hist", "_depth")}
     hist = tuple(tuple(o) if not isinstance(o[-1], list) else (o[0], tuple(o[1])) for o in case["hist"])
     return step(cfg, hist)
